@@ -746,7 +746,7 @@ def check_program(chk, job, gen, res, stats):
                 fails.append((sig, "stack-frame-line", detail))
         else:
             fails.append((None, "stack-frame-line", detail))
-    stats[tag + ":stack-frames-without-source (glue code, if statements)"] += sum(1 for r in resolved if r is None)
+    stats[tag + ":stack-frames-without-source (glue code, recorded NoPos findings)"] += sum(1 for r in resolved if r is None)
     # 8. frames inside the .inc.js helper (stack strings printed by the program)
     if gen.with_inc:
         inc_frames = []
